@@ -5,12 +5,15 @@ correspondence: (a) compiled rule tables of all 118 elements, (b1) calc_implicit
                 environment space built as real molecules, (b1') the same on the exhaustive aromatic space (ordered neighbour
                 lists), (b2) per-atom and per-molecule observations on rule-directed, random, malformed and corpus molecules
                 (hydrogens, labels, fix_structure, brutto, charge, radical, mass, check_valence), (c) union / substructure /
-                split: whole result molecules (atoms in order, hydrogen counts, bonds) and exceptions
+                split: whole result molecules (atoms in order, hydrogen counts, bonds) and exceptions, (d) the operations that write
+                hydrogen counts themselves: Standardize.implicify_hydrogens against its Gallina mirror (whole result), results of
+                canonicalize (keep_kekule / fix_tautomers on and off) and explicify + implicify judged by the model (stored_ok)
 search:         directed table search (every tabulated rule as a molecule: electron parity from the atomic number, octet rule,
                 RDKit on the bare graph), octet-rule oracle on the exhaustive space, closed form of the aromatic branch, RDKit atom
                 by atom (total Hs), aromatic atoms vs their Kekule form vs RDKit, formula / charge / mass re-derived from the atoms
                 and from RDKit, reported atoms == atoms without any accepted hydrogen count, additivity over union and split,
-                substructure vs rebuild from scratch, invariance under renumbering - all on the real code, independent of the model."""
+                substructure vs rebuild from scratch, invariance under renumbering, every count stored by canonicalize /
+                implicify_hydrogens is a valence state (check_implicit) and RDKit's count - all on the real code, independent of the model."""
 import collections
 import concurrent.futures as cf
 import itertools
@@ -908,6 +911,198 @@ def corr_compose(ck):
 
 
 # ---------------------------------------------------------------------------------------------------------------
+# (d) operations that WRITE hydrogen counts outside calc_implicit: Standardize.implicify_hydrogens / explicify_hydrogens /
+#     canonicalize (also keep_kekule=True: saved Kekule bond orders put back) - the stored counts must be valence states
+
+AZOLIUM = ['{a}[n+]1ccn({b})c1', '{a}[N+]1=CN({b})C=C1', '{a}[n+]1cccn1{b}', '{a}[N+]1=CC=CN1{b}', '{a}[n+]1cnn({b})c1', '{a}n1c[n+]({b})cn1',
+           '{a}[n+]1cn({b})c2ccccc12', '{a}[N+]1=CN({b})c2ccccc12', '{a}[n+]1ccsc1{b}', '{a}[n+]1ccccc1{b}', '{a}[n+]1ccn({b})n1', '{a}[N+]1=NN({b})C=C1']
+SUBST = ['C', 'CC', 'C(C)C', 'CCO', 'c1ccccc1', 'C(F)(F)F']
+
+
+def gen_azolium(ck, rng):
+    """ring cations whose charge canonicalisation may move the charge to another ring nitrogen (with or without moving a
+    hydrogen): N,N'-disubstituted azolium cations, every ordered pair of different substituents, aromatic and Kekule spelling"""
+    pairs = [(a, b_) for a in SUBST for b_ in SUBST if a != b_]
+    if ck.tier == 'quick':
+        pairs = [pq for pq in pairs if pq[0] in ('C', 'CC') or pq[1] in ('C', 'CC')]
+        pairs = sorted(pairs, key=lambda pq: (pq not in (('CC', 'C'), ('C', 'CC')), rng.random()))[:7]
+    return [t.format(a=a, b=b_) for t in AZOLIUM for a, b_ in pairs]
+
+
+def gen_hydrides(ck, rng):
+    """atoms that carry explicit hydrogen atoms, also more than can be made implicit: every element of the organic subset (+ As) and
+    a seed-dependent choice of the others (all in the thorough tier), k = 1..6 explicit hydrogens alone and next to C / =O (/ C,C),
+    charge +-1 for B C N O P S (all main ones thorough)"""
+    from chython.periodictable import Element
+    thorough = ck.tier == 'thorough'
+    classes = [c for c in Element.__subclasses__() if c.__name__ != 'H']
+    main = [c for c in classes if c.__name__ in ORGANIC + ['As'] + (['Ge', 'Sn', 'Al', 'Te'] if thorough else [])]
+    rest = [c for c in classes if c not in main]
+    chosen = main + (rest if thorough else rng.sample(rest, 8))
+    others = [[], [(1, 'C')], [(2, 'O')]] + ([[(1, 'C'), (1, 'C')]] if thorough else [])
+    out = []
+    for cls in chosen:
+        for chg in (0, 1, -1):
+            if chg and (cls not in main or not (thorough or cls.__name__ in ('B', 'C', 'N', 'O', 'P', 'S'))):
+                continue
+            for other in others:
+                if (chg or cls not in main) and other not in ([], [(1, 'C')]):
+                    continue
+                for k in range(1, 7):
+                    env = [(1, 'H')] * k + other if k % 2 else other + [(1, 'H')] * k
+                    out.append((('hydride', cls.__name__, chg, k, len(other)), cls(charge=chg), env))
+    return out
+
+
+def stored_states_ok(m):
+    """[(atom, stored, accepted counts)] for the atoms whose stored hydrogen count is NOT a valence state of the atom: a stored
+    count that check_implicit refuses, or a stored None although some count is accepted (atoms with aromatic bonds and
+    hydrogen atoms are not judged: check_implicit cannot)"""
+    bad = []
+    for n, a in m.atoms():
+        if a.atomic_number == 1 or any(int(bd) == 4 for bd in m._bonds[n].values()):
+            continue
+        acc = [h for h in range(9) if m.check_implicit(n, h)]
+        if (a.implicit_hydrogens is None and acc) or (a.implicit_hydrogens is not None and a.implicit_hydrogens not in acc):
+            bad.append((n, a.atomic_symbol, a.implicit_hydrogens, acc))
+    return bad
+
+
+def writers_cases(ck, rng):
+    """[(tag, replay code, result molecule or exception name, input SMILES)] of the hydrogen-writing operations"""
+    from chython import smiles
+    out = []
+    for smi in gen_azolium(ck, rng) + ['CC[n+]1ccn(C)c1', 'CC[N+]1=CN(C)C=C1', 'C[n+]1ccn(CC)c1', 'c1cc[nH]c1', 'O=c1cc[nH]cc1', 'Cn1cc[n+](c1)C', 'C[n+]1ccccc1',
+                                       '[O-][n+]1ccccc1', 'Cc1cc[nH+]cc1', 'c1ccc2[nH]ccc2c1', 'CN1C=C[NH+]=C1', 'OC1=NC=CC=C1', 'Oc1ncccc1', 'C[N+](C)(C)C']:
+        for kk in (True, False):
+            for ft in (True, False):
+                try:
+                    m = smiles(smi)
+                except Exception:
+                    continue
+                call = f'canonicalize(keep_kekule={kk}, fix_tautomers={ft})'
+                try:
+                    m.canonicalize(keep_kekule=kk, fix_tautomers=ft)
+                    res = m
+                except Exception as e:
+                    res = type(e).__name__
+                out.append((('canonicalize', smi, kk, ft), f'from chython import smiles; m = smiles({smi!r}); m.{call}', res, smi, None))
+    for tag, centre, env in gen_hydrides(ck, rng):
+        try:
+            m = build(centre, env)
+        except Exception:
+            continue
+        smi = str(m)
+        code = ('from chython import MoleculeContainer\nfrom chython.periodictable import Element\nm = MoleculeContainer()\n'
+                f'm.add_atom(Element.from_symbol({centre.atomic_symbol!r})(charge={centre.charge}))\n'
+                f'for o, e in {list(env)!r}:\n    m.add_bond(1, m.add_atom(e), o)\nm.implicify_hydrogens()')
+        before = m.copy()
+        try:
+            m.implicify_hydrogens()
+            res = m
+        except Exception as e:
+            res = type(e).__name__
+        out.append((tag, code, res, smi, before))
+        if not isinstance(res, str) and all(a.implicit_hydrogens is not None for _, a in res.atoms()):
+            x = res.copy()
+            try:
+                x.explicify_hydrogens()
+                before = x.copy()
+                x.implicify_hydrogens()
+                out.append((('re-implicify',) + tag[1:], code + '\nm.explicify_hydrogens(); m.implicify_hydrogens()', x, smi, before))
+            except Exception as e:
+                out.append((('re-implicify',) + tag[1:], code + '\nm.explicify_hydrogens(); m.implicify_hydrogens()', type(e).__name__, smi, None))
+    # explicit hydrogens written in SMILES (isotopes, H-H, bridging / over-bonded hydrogens, hydrogen on aromatic atoms, coordinate
+    # bonds) and corpus molecules with ALL hydrogens made explicit
+    texts = ['[H][H]', '[2H]O[2H]', '[H]O[2H]', '[1H]C', '[3H]C[H]', '[H]C([H])([H])[H]', 'C[H]C', '[H]=C', '[H]c1ccccc1', '[H]C1=CC=CC=C1', '[H][N+]([H])([H])[H]',
+             '[H]O[H]', 'CB1(C)~[H]B(C)(C)~[H]1', 'CB1(C)[H]B(C)(C)[H]1', '[H]P([H])([H])([H])[H]', 'CP([H])([H])([H])[H]', '[H]S([H])([H])[H]', '[H]I([H])[H]',
+             '[H]Cl([H])[H]', '[H][Fe][H]', '[H]~[Fe]', '[H]N([H])C(=O)C([H])([H])[H]', '[H][C-]([H])[H]', '[H][O+]([H])[H]', '[H][H].[H]C', '[H]']
+    for smi in texts + corpus.sample(corpus.lipo(), 25 if ck.tier == 'quick' else 400, ck.seed, 'c04impl'):
+        try:
+            m = smiles(smi)
+            if smi not in texts:
+                m.kekule()
+                m.explicify_hydrogens()
+        except Exception:
+            continue
+        before = m.copy()
+        code = f'from chython import smiles; m = smiles({smi!r}); ' + ('' if smi in texts else 'm.kekule(); m.explicify_hydrogens(); ') + 'm.implicify_hydrogens()'
+        try:
+            m.implicify_hydrogens()
+            res = m
+        except Exception as e:
+            res = type(e).__name__
+        out.append((('implicify-smiles' if smi in texts else 'implicify-corpus', smi), code, res, smi, before))
+    return out
+
+
+def corr_writers(ck):
+    """correspondence: every result molecule is printed and judged by the MODEL (Valence.stored_ok: every stored count passes the
+    model's check_implicit, a stored None means the model's calc_implicit finds nothing) next to the usual per-atom comparison of
+    calc_implicit / check_implicit / totals; search: the same judgement by the real check_implicit, and RDKit's count on the bare
+    graph for organic-subset atoms"""
+    from rdkit import RDLogger
+    RDLogger.DisableLog('rdApp.*')
+    rng = random.Random(f'{ck.seed}:c04:writers')
+    results = writers_cases(ck, rng)
+    capped = Capped(ck, 6)
+    cases, meta = [], []
+    icases, imeta = [], []
+    for tag, code, res, smi, before in results:
+        ck.case(('writer',) + tag)
+        ck.count(f'writers:{tag[0]}' + (' raised ' + res if isinstance(res, str) else ''))
+        if before is not None:
+            # the whole result of implicify_hydrogens (atoms in order, counts, bonds, or the exception) against the Gallina mirror
+            exp = ('Err ' + EXN.get(res, 'OtherError')) if isinstance(res, str) else 'Ok ' + coqmol.mol_term(res)
+            icases.append(f'implicify_case {coqmol.mol_term(before)} ({exp})')
+            imeta.append((tag, smi))
+        if isinstance(res, str):
+            continue
+        bad = stored_states_ok(res)
+        rp = code + '\nprint(str(m), [(n, a.atomic_symbol, a.charge, a.implicit_hydrogens, [h for h in range(9) if m.check_implicit(n, h)]) for n, a in m.atoms()], m.check_valence())'
+        if bad:
+            capped.counterexample(f'stored-state:{tag[0]}:{smi}:{":".join(str(x) for x in tag[2:])}',
+                                  f'after {code.splitlines()[-1].split("; ")[-1]} an atom carries a hydrogen count that is not a valence state of its element, charge and bonds '
+                                  '(check_implicit refuses it, or the atom is left without a count although one is accepted)',
+                                  {'input': smi, 'operation': tag[0], 'options': list(tag[2:])}, [{'atom': n, 'element': e, 'stored': h, 'accepted': acc} for n, e, h, acc in bad],
+                                  'stored count accepted by check_implicit', 'check_implicit(n, h) for h = 0..8 on the result molecule', replay_py=rp)
+        elif not any(int(bd) in (4, 8) for *_, bd in res.bonds()) and len(res) > 1:
+            rd = rd_total_hs(res)
+            if rd is not None:
+                for n, a in res.atoms():
+                    if a.atomic_symbol in OCTET_ELECTRONS and a.implicit_hydrogens is not None and (a.atomic_symbol, a.charge, a.is_radical) not in HYPERVALENT:
+                        ck.count('writers:rdkit atoms judged')
+                        if a.implicit_hydrogens + a.explicit_hydrogens != rd[n]:
+                            capped.counterexample(f'stored-rdkit:{tag[0]}:{smi}:{":".join(str(x) for x in tag[2:])}:{n}',
+                                                  f'after {code.splitlines()[-1].split("; ")[-1]} the total hydrogens of atom {n} ({a.atomic_symbol}) differ from RDKit',
+                                                  {'input': smi, 'operation': tag[0]}, a.implicit_hydrogens + a.explicit_hydrogens, rd[n],
+                                                  'RDKit valence model on the bare graph', replay_py=rp)
+                            break
+        loc = not any(int(bd) == 4 for *_, bd in res.bonds())
+        cases.append(observe(res, labels=False, recalc=False, stored=loc))
+        meta.append((tag, smi, str(res)))
+    ok, failing, log = coqcases.run_cases('c04w', IMPORTS, cases, extra=EXTRA, shard=150)
+    good = ok and not failing
+    ck.oblige(f'correspondence: result molecules of canonicalize (keep_kekule / fix_tautomers on and off), implicify_hydrogens and explicify + implicify '
+              f'({len(cases)} results): per-atom calc_implicit / check_implicit, totals, and every stored count is a valence state for the Coq model (stored_ok)',
+              good, 'correspondence', log or str([meta[i] for i in failing[:8]]))
+    ck.extra['writer_cases'] = len(cases)
+    if not good:
+        ck.unchecked('correspondence Valence.stored_ok / calc_implicit / check_implicit on the results of canonicalize / implicify_hydrogens', log[-1500:],
+                     [repr(meta[i]) + ' :: ' + cases[i][:1500] for i in failing[:20]])
+    ok, failing, log = coqcases.run_cases('c04i', IMPORTS_X, icases, extra=EXTRA, shard=200)
+    good_i = ok and not failing
+    ck.oblige(f'correspondence: Standardize.implicify_hydrogens == Coq model ValenceArom.implicify on {len(icases)} molecules with explicit hydrogens (hydrides of '
+              'every chosen element with 1..6 hydrogens, explicified results, SMILES with isotopes / H-H / over-bonded / bridging hydrogens, fully explicified '
+              'corpus molecules): whole result molecule or exception', good_i, 'correspondence', log or str([imeta[i] for i in failing[:8]]))
+    ck.extra['implicify_cases'] = len(icases)
+    if not good_i:
+        ck.unchecked('correspondence ValenceArom.implicify vs Standardize.implicify_hydrogens', log[-1500:],
+                     [repr(imeta[i]) + ' :: ' + icases[i][:1500] for i in failing[:20]])
+    return good and good_i
+
+
+# ---------------------------------------------------------------------------------------------------------------
 # directed search for the table theorems: the molecule of every tabulated rule, judged without the tables
 
 NOBLE = (0, 2, 10, 18, 36, 54, 86, 118)
@@ -1401,6 +1596,26 @@ def search(ck):
             ck.counterexample(f'split-keeps-h:{smi}', 'split() changed stored hydrogen counts (it must copy them: recalculate_hydrogens=False)', {'smiles': smi},
                               {n: (before[n], after.get(n)) for n in before if before[n] != after.get(n)}, 'unchanged counts', 'atoms of the parts vs atoms of the molecule',
                               replay_py=f"from chython import smiles; m = smiles({smi!r}); print([(n, a.implicit_hydrogens) for n, a in m.atoms()], [[(n, a.implicit_hydrogens) for n, a in p.atoms()] for p in m.split()])")
+    # canonicalize() writes hydrogen counts itself (implicify_hydrogens, thiele, saved Kekule orders put back with keep_kekule): every
+    # stored count of the result must be a valence state of its atom (charged molecules first)
+    order = sorted(range(len(parsed)), key=lambda i_: ('+' not in parsed[i_][0], i_))
+    for i_ in order[:150 if ck.tier == 'quick' else 1500]:
+        smi = parsed[i_][0]
+        for kk in (True, False):
+            try:
+                m = smiles(smi)
+                m.canonicalize(keep_kekule=kk)
+            except Exception:
+                ck.count('search:canonicalize raised')
+                continue
+            ck.case(('canon-state', smi, kk))
+            ck.count('search:canonicalize results judged')
+            bad = stored_states_ok(m)
+            if bad:
+                ck.counterexample(f'stored-state:canonicalize-corpus:{smi}:{kk}', f'after canonicalize(keep_kekule={kk}) an atom carries a hydrogen count that is not a valence state '
+                                  'of its element, charge and bonds', {'smiles': smi, 'keep_kekule': kk}, [{'atom': n, 'element': e, 'stored': h, 'accepted': acc} for n, e, h, acc in bad],
+                                  'stored count accepted by check_implicit', 'check_implicit(n, h) for h = 0..8 on the result',
+                                  replay_py=f"from chython import smiles; m = smiles({smi!r}); m.canonicalize(keep_kekule={kk}); print(str(m), [(n, a.atomic_symbol, a.implicit_hydrogens, [h for h in range(9) if m.check_implicit(n, h)]) for n, a in m.atoms()])")
     # boundary: the empty molecule
     from chython import MoleculeContainer
     try:
@@ -1448,6 +1663,9 @@ def run(ck):
                        'union / substructure / split are modelled as far as atoms, bonds and hydrogen counts go (Model.ValenceArom); stereo labels '
                        '(fix_stereo) and ring labels are not; the connected components are an input of the split model (perception is C06), the '
                        'correspondence checks that the real components are a partition closed under bonds',
+                       'Standardize.implicify_hydrogens is hand-modelled (ValenceArom.implicify: atoms, bonds, counts, exceptions) and tied on whole '
+                       'results, no theorem; canonicalize is NOT modelled (standardize rules / kekule / thiele are C14 / C05): its results are judged - '
+                       'every stored count must be a valence state - by the model and, independently, by the real check_implicit and RDKit',
                        'ring perception used by calc_labels (in_ring, ring_sizes) is not part of this model (C06)']
     ck.extra['rule'] = ('tables: the 118 live _compiled_valence_rules + random valence_rules lookups (non-trivial = key exists). exhaustive: '
                         '12 elements x charge -2..2 x radical x every multiset of <= 4 bonds (orders 1-3 to C N O S F Cl) as real molecules, each with '
@@ -1457,7 +1675,10 @@ def run(ck):
                         'the valence-check clause, unions, renumberings. aromatic: C N O S B P Si H Fe x charge -2..2 x radical x 4791 ordered neighbour '
                         'lists containing an aromatic bond (non-trivial = neutral carbon with a count). compose: hand-made and corpus molecules (as read '
                         'and Kekule) x union with the next molecule (overlapping / disjoint numbers, remap on / off), substructure over 7 kinds of '
-                        'selections x recalculation on / off, split. directed: every tabulated rule with 0..n hydrogens replaced by carbons')
+                        'selections x recalculation on / off, split. writers: N,N\'-disubstituted azolium cations (12 ring templates x substituent pairs, charge on '
+                        'either nitrogen, aromatic and Kekule spelling) x canonicalize(keep_kekule, fix_tautomers); hydrides with 1..6 explicit hydrogens '
+                        '(more than can be made implicit) x implicify_hydrogens, explicify + implicify; SMILES with isotopes / H-H / over-bonded hydrogens; '
+                        'fully explicified corpus molecules. directed: every tabulated rule with 0..n hydrogens replaced by carbons')
     import time
     t = [time.time()]
 
@@ -1487,10 +1708,12 @@ def run(ck):
     lap('molecules')
     tied_e = corr_compose(ck)
     lap('compose')
+    tied_f = corr_writers(ck)
+    lap('writers')
     if not directed_done:
         directed_tables(ck)
     lap('directed')
     search(ck)
     lap('search')
     ck.extra['proved'] = proved
-    ck.extra['tied'] = bool(tied_a and tied_b and tied_c and tied_d and tied_e)
+    ck.extra['tied'] = bool(tied_a and tied_b and tied_c and tied_d and tied_e and tied_f)
